@@ -104,6 +104,14 @@ func (g *G) scThis() []Node {
 		Log(S("this"), CallN(f), Meth(Id(o), "m"), CallN(d), Meth(Dot(Id(o), "inner"), "m"), CallE(Idx(Id(o), S("m")))),
 		Log(S("this2"), CallE(Seq(N(0), Dot(Id(o), "m"))), CallE(&Paren{X: Dot(Id(o), "m")}), CallE(Bin("||", Dot(Id(o), "m"), N(0)))),
 		Log(S("this3"), CallE(FnE("", nil, Ret(Bin("===", &This{}, Id("G"))))), NewE(FnE("", nil, ES(Asg(Dot(&This{}, "q"), N(1)))))),
+		// operators that return GetValue of an operand never hand a reference on (11.11-11.14):
+		// no this binding, no typeof / delete leniency for what is inside them
+		Log(S("this4"), CallE(Tern(N(1), Dot(Id(o), "m"), N(0))), CallE(Tern(N(0), N(0), Dot(Id(o), "m"))), CallE(Bin("&&", N(1), Dot(Id(o), "m"))), CallE(AsgOp("=", Id(d), Dot(Id(o), "m")))),
+		TryC(Blk(Log(S("typeof-cond"), Un("typeof", Tern(N(1), Id("undeclared"+f), N(0))))), "e", Blk(Log(S("typeof-cond-err"), Dot(Id("e"), "name"))), nil),
+		TryC(Blk(Log(S("typeof-seq"), Un("typeof", Seq(N(0), Id("undeclared"+f))))), "e", Blk(Log(S("typeof-seq-err"), Dot(Id("e"), "name"))), nil),
+		TryC(Blk(Log(S("typeof-or"), Un("typeof", Bin("||", N(0), Id("undeclared"+f))))), "e", Blk(Log(S("typeof-or-err"), Dot(Id("e"), "name"))), nil),
+		Log(S("typeof-paren"), Un("typeof", &Paren{X: Id("undeclared" + f)})),
+		Log(S("delete-cond"), Un("delete", Tern(N(1), Dot(Id(o), "inner"), N(0))), Un("typeof", Dot(Id(o), "inner")), Un("delete", Seq(N(0), Dot(Id(o), "inner"))), Un("typeof", Dot(Id(o), "inner"))),
 	}
 	g.cur().fns = append(g.cur().fns, f)
 	g.cur().objs = append(g.cur().objs, o)
@@ -497,6 +505,18 @@ func (g *G) scProto() []Node {
 		Log(S("nullproto"), Un("typeof", Dot(Meth(Id("Object"), "create", &Null{}), "toString")), Meth(Dot(Dot(Id("Object"), "prototype"), "toString"), "call", Id(c))),
 		Log(S("tostring"), Bin("+", S(""), ObjL()), Bin("+", S(""), Arr(N(1), Arr(N(2), N(3)))), Bin("+", N(1), &Null{}), Bin("+", S("u"), Undef())),
 	}
+	// 15.3.5.3: instanceof walks the chain ABOVE the left operand (F.prototype is
+	// not an instance of F); the prototype is read at the time of the test
+	pf, pg, pi := g.fresh("PF"), g.fresh("PG"), g.fresh("pi")
+	out = append(out,
+		FnD(pf, nil), FnD(pg, nil), V(pi, NewE(Id(pf))),
+		Log(S("instanceof"), Bin("instanceof", Id(pi), Id(pf)), Bin("instanceof", Dot(Id(pf), "prototype"), Id(pf)), Bin("instanceof", Dot(Id("Object"), "prototype"), Id("Object")),
+			Bin("instanceof", Id(pi), Id("Object")), Bin("instanceof", Id(c), Id(pf)), Bin("instanceof", Meth(Id("Object"), "create", &Null{}), Id("Object"))),
+		ES(Asg(Dot(Id(pg), "prototype"), Id(pi))),
+		Log(S("instanceof2"), Bin("instanceof", Id(pi), Id(pg)), Bin("instanceof", NewE(Id(pg)), Id(pf)), Bin("instanceof", NewE(Id(pg)), Id(pg))),
+		ES(Asg(Dot(Id(pf), "prototype"), ObjL())),
+		Log(S("instanceof3"), Bin("instanceof", Id(pi), Id(pf)), Bin("instanceof", NewE(Id(pf)), Id(pf)), Bin("instanceof", Id(pf), Id("Function")), Bin("instanceof", Id("Function"), Id("Object"))),
+	)
 	if g.R.Bool() {
 		out = append(out, ES(Meth(Id("Object"), "freeze", Id(a))), ES(Asg(Dot(Id(a), "x"), N(5))), ES(Asg(Dot(Id(c), "x"), N(6))),
 			Log(S("frozen-proto"), Dot(Id(a), "x"), Dot(Id(c), "x"), Meth(Id(c), "hasOwnProperty", S("x")), Meth(Id("Object"), "isFrozen", Id(a))))
